@@ -59,6 +59,9 @@ emit("ps10", a(%d %% 6), %d) end`,
 	`do FIN = FIN or {} local function fz(tag) return {__gc = function(o) emit("fin", tag, o.id) end} end
 for i = 1, %d %% 5 + 2 do FIN[#FIN + 1] = setmetatable({id = i}, fz("a")) end
 local again = FIN[(%d %% #FIN) + 1] setmetatable(again, fz("b")) FIN[#FIN + 1] = setmetatable({id = 99}, fz("c")) emit("ps11", #FIN) end`,
+	// a finaliser that re-arms itself once from inside __gc
+	`do FIN = FIN or {} local mt mt = {__gc = function(o) o.n = o.n + 1 emit("fin", "rearm", o.id, o.n) if o.n < 2 + %d %% 2 then setmetatable(o, mt) end end}
+FIN[#FIN + 1] = setmetatable({id = %d %% 7, n = 0}, mt) emit("ps12", #FIN) end`,
 	// string building through pooled continuations
 	`local parts = {} for i = 1, %d %% 30 + 1 do parts[#parts + 1] = tostring(i):rep(2) end emit("ps8", table.concat(parts, "-"), %d)`,
 }
